@@ -183,7 +183,13 @@ def seeded(case):
       del it0
       view2 = ds.shuffle_repeat_batch(batch_size=b, num_epochs=ep, num_steps=st, drop_remainder=drop, seed=seed,
                                       skip_shuffle=skip)
-      for nm, v in (('second iteration', view), ('separately built view with the same seed', view2)):
+      view3 = ds.shuffle_repeat_batch(batch_size=b, num_epochs=ep, num_steps=st, drop_remainder=drop, seed=seed,
+                                      skip_shuffle=skip)
+      it3 = iter(view3)
+      next(it3, None)  # the view's very first iteration is abandoned
+      del it3
+      for nm, v in (('second iteration', view), ('separately built view with the same seed', view2),
+                    ('view whose first iteration was abandoned', view3)):
         s2 = [int(x) for bt in take(v, k, want is None) for x in np.asarray(bt['i'])]
         require(s2 == stream, nm + ' gives different batches for a fixed seed', stream, s2)
       streams[seed] = stream
